@@ -41,6 +41,7 @@ struct Ent {
     depth: u8,
     tag: u16,
     decl: bool,
+    sib: bool,
     sites: Vec<Site>,
 }
 type Forest = Vec<Vec<Ent>>;
@@ -57,6 +58,7 @@ fn parse_forest(b: &[u8]) -> Forest {
         let depth = b[i];
         let tag = ((b[i + 1] as u16) << 8) | b[i + 2] as u16;
         let decl = b[i + 3] & 1 != 0;
+        let sib = b[i + 3] & 2 != 0;
         let ns = b[i + 4] as usize;
         i += 5;
         let mut sites = Vec::new();
@@ -64,7 +66,7 @@ fn parse_forest(b: &[u8]) -> Forest {
             sites.push(Site { car: b[i], op: b[i + 1], nest: b[i + 2], tkind: b[i + 3], tval: b[i + 4] });
             i += 5;
         }
-        f.last_mut().unwrap().push(Ent { depth, tag, decl, sites });
+        f.last_mut().unwrap().push(Ent { depth, tag, decl, sib, sites });
     }
     f
 }
@@ -254,6 +256,9 @@ fn build_input_with(ver: u16, fmt: Format, asz: u8, forest: &Forest, layout: Opt
             stack.push(id);
             let k = ids.len();
             unit.get_mut(id).set(c::DW_AT_name, w::AttributeValue::String(format!("e{}", k).into_bytes()));
+            if e.sib {
+                unit.get_mut(id).set_sibling(true);
+            }
             if e.decl {
                 unit.get_mut(id).set(c::DW_AT_declaration, w::AttributeValue::Flag(true));
             }
@@ -659,7 +664,9 @@ fn dump(secs: &Secs) -> Result<Dump, String> {
             }
             let mut attrs = Vec::new();
             for a in &e.attrs {
-                if a.name() == c::DW_AT_name {
+                // DW_AT_sibling is structure, not a dependency: it points just behind the subtree (often at a null
+                // entry), the writer recomputes it, and C11 checks its value
+                if a.name() == c::DW_AT_name || a.name() == c::DW_AT_sibling {
                     continue;
                 }
                 let v = match a.value() {
